@@ -203,14 +203,31 @@ type def struct {
 	title string
 	cont  int  // 0 top level, 1 quote, 2 list, 3 list in quote, 4 quote in quote
 	join  bool // share the root block with the next definition when both are in a quote
+	spell int  // 0: all on one line; 1: destination on the next line; 2: title on the next line; 3: both; 4: destination in <>; 5: title in '' on the next line
 }
 
 func buildDoc(defs []def, use string, useForm, useKind int, usePos int, useCont int) string {
 	var parts []string
 	renderDef := func(d def) string {
-		s := "[" + d.label + "]: " + d.dest
+		// the spec allows white space including one line ending after the colon
+		// and between destination and title
+		sep1, sep2, dest, q := " ", " ", d.dest, "\""
+		switch d.spell {
+		case 1:
+			sep1 = "\n"
+		case 2:
+			sep2 = "\n"
+		case 3:
+			sep1, sep2 = " \n", "\n "
+		case 4:
+			dest = "<" + dest + ">"
+			sep1 = "   "
+		case 5:
+			sep2, q = " \n", "'"
+		}
+		s := "[" + d.label + "]:" + sep1 + dest
 		if d.title != "" {
-			s += " \"" + d.title + "\""
+			s += sep2 + q + d.title + q
 		}
 		switch d.cont {
 		case 1:
@@ -291,6 +308,7 @@ func propResolve(c harness.Case) harness.Result {
 			d.title = fmt.Sprintf("t%d", i)
 		}
 		d.join = c.I[fmt.Sprintf("join%d", i)] == 1
+		d.spell = c.I[fmt.Sprintf("spell%d", i)]
 		defs = append(defs, d)
 	}
 	use := c.S["use"]
@@ -306,6 +324,13 @@ func propResolve(c harness.Case) harness.Result {
 		}
 	}
 	doc := buildDoc(defs, use, c.I["form"], c.I["kind"], c.I["pos"], c.I["usecont"])
+	// the document's own line endings (those the generator wrote as LF) in one of the three styles
+	switch c.I["eol"] {
+	case 1:
+		doc = lfTo(doc, "\r\n")
+	case 2:
+		doc = lfTo(doc, "\r")
+	}
 	want := -1
 	un := refNorm(use)
 	competing := 0
@@ -364,6 +389,21 @@ func describeDefs(defs []def) string {
 	return strings.Join(s, ", ")
 }
 
+// lfTo rewrites every LF that is not the second half of a CRLF pair; a CR that
+// would come to stand directly before an LF (or the reverse) is left alone so
+// that no line ending fuses with its neighbour.
+func lfTo(doc, eol string) string {
+	var sb strings.Builder
+	for i := 0; i < len(doc); i++ {
+		if doc[i] == '\n' && !(i > 0 && doc[i-1] == '\r') && !(eol == "\r" && i+1 < len(doc) && doc[i+1] == '\n') {
+			sb.WriteString(eol)
+		} else {
+			sb.WriteByte(doc[i])
+		}
+	}
+	return sb.String()
+}
+
 func genResolve(t *rapid.T) harness.Case {
 	var c harness.Case
 	nb := rapid.IntRange(1, 5).Draw(t, "nunits")
@@ -392,6 +432,12 @@ func genResolve(t *rapid.T) harness.Case {
 		c.SetI(fmt.Sprintf("cont%d", i), rapid.IntRange(0, 4).Draw(t, "cont"))
 		c.SetI(fmt.Sprintf("join%d", i), rapid.IntRange(0, 1).Draw(t, "join"))
 		c.SetI(fmt.Sprintf("title%d", i), rapid.IntRange(0, 1).Draw(t, "title"))
+		if rapid.IntRange(0, 2).Draw(t, "respell") == 0 {
+			c.SetI(fmt.Sprintf("spell%d", i), rapid.IntRange(1, 5).Draw(t, "spell"))
+		}
+	}
+	if e := rapid.IntRange(0, 5).Draw(t, "eol"); e <= 2 {
+		c.SetI("eol", e)
 	}
 	c.SetS("use", use)
 	c.SetI("form", rapid.IntRange(0, 2).Draw(t, "form"))
@@ -545,7 +591,7 @@ func TestProperty(t *testing.T) {
 	}
 	harness.Run(t, harness.Plan{Prop: "C12", Suppress: findings.Suppressor("C12"), Checks: []harness.Check{
 		{Name: "resolve", Quick: 80000, Thorough: 1000000, Gen: genResolve, Prop: propResolve,
-			Rule: "history of 1-4 definitions (labels = re-spellings / edits of a base label over an alphabet with multi-character folds, interior white space runs incl. line endings, edge white space of ASCII and Unicode kinds, escaped brackets; at top level, in a quote or in a list item; with/without title) and one use (shortcut, collapsed or full; link or image) placed before, between or after them; oracle = the use resolves iff some definition's label has the same reference-normalised form, to the first such definition's destination and title; non-trivial = resolves with labels that differ as strings, a near miss (differs only by case / white-space spelling yet must not match, or vice versa), or >= 2 competing definitions"},
+			Rule: "history of 1-4 definitions (labels = re-spellings / edits of a base label over an alphabet with multi-character folds, interior white space runs incl. line endings, edge white space of ASCII and Unicode kinds, escaped brackets; at top level, in a quote or in a list item; with/without title; destination and title on the same or on the following line, destination bare or in angle brackets; document line endings LF, CRLF or CR) and one use (shortcut, collapsed or full; link or image) placed before, between or after them; oracle = the use resolves iff some definition's label has the same reference-normalised form, to the first such definition's destination and title; non-trivial = resolves with labels that differ as strings, a near miss (differs only by case / white-space spelling yet must not match, or vice versa), or >= 2 competing definitions"},
 		{Name: "closure", Quick: 100000, Thorough: 1000000, Gen: func(t *rapid.T) harness.Case {
 			if rapid.IntRange(0, 9).Draw(t, "g") < 7 {
 				return harness.Case{In: genRefSoup(t)}
